@@ -433,8 +433,17 @@ def validate_obs(ctx, module, cfg, obs_name, obs_path, timeout=1800, chunk=40000
                 fh.writelines(lines[:300])
     ctx.prepare_spec()
     bad = []
-    for start in range(0, n, chunk):
-        part = lines[start:start + chunk]
+    # chunks of at most <chunk> observations and about 100 MB of JSON (TLC holds the parsed chunk in memory)
+    parts, cur, size = [], [], 0
+    for l in lines:
+        if cur and (len(cur) >= chunk or size + len(l) > 100000000):
+            parts.append(cur)
+            cur, size = [], 0
+        cur.append(l)
+        size += len(l)
+    if cur:
+        parts.append(cur)
+    for part in parts:
         with open(os.path.join(ctx.specdir, obs_name), "w") as fh:
             fh.writelines(part)
         res = ctx.tlc(module, cfg=cfg, cont=True, timeout=timeout)
